@@ -315,8 +315,12 @@ class Ctx:
             d = self.decisions[k]
             forced = self.forced[k] if k < len(self.forced) else False
         else:
-            t_ok = self.feasible(cond)
-            f_ok = self.feasible(z3.Not(cond))
+            if has_quantifier(cond):
+                # a quantified condition: the branch solver would only time out; both sides are explored
+                t_ok = f_ok = True
+            else:
+                t_ok = self.feasible(cond)
+                f_ok = self.feasible(z3.Not(cond))
             forced = True
             if t_ok and f_ok:
                 self.engine.worklist.append((self.decisions[:k] + [False], self.forced[:k] + [False]))
